@@ -140,10 +140,15 @@ func (d *Driver) sleep(dur time.Duration) {
 }
 
 // Poll grants the event loop one epoll_wait (after the 200 ms timeout if nothing is ready).
-func (d *Driver) Poll() {
+func (d *Driver) Poll() { d.poll(true) }
+
+// pollElapsed grants a poll without advancing the clock first: the caller has already let the epoll timeout elapse.
+func (d *Driver) pollElapsed() { d.poll(false) }
+
+func (d *Driver) poll(wait bool) {
 	d.serviceYield()
 	runtime.VerifSetRand(true, d.T.rngNextForMap())
-	if !d.K.AnyReady() {
+	if wait && !d.K.AnyReady() {
 		time.Sleep(200 * time.Millisecond)
 		d.quiesce()
 	}
@@ -247,9 +252,13 @@ func (d *Driver) boot() {
 	rand.Seed(int64(p.Seed*2654435761 + 12345))
 	var seeds []string
 	for _, n := range p.Topos[0].Nodes {
-		if n.Master {
+		if n.Master || p.Proxy.SeedAll {
 			seeds = append(seeds, n.Addr)
 		}
+	}
+	if p.Proxy.SeedAll {
+		// replicas first, so that the very first probes and pools are theirs
+		sort.SliceStable(seeds, func(a, b int) bool { return !p.Topos[0].ByAddr(seeds[a]).Master && p.Topos[0].ByAddr(seeds[b]).Master })
 	}
 	if p.Proxy.SeedServers > 0 && p.Proxy.SeedServers < len(seeds) {
 		seeds = seeds[:p.Proxy.SeedServers]
@@ -1010,8 +1019,11 @@ func (d *Driver) fairRunTick(maxRounds int, done func() bool, tick time.Duration
 				d.send(c, n)
 			}
 		}
-		if d.K.AnyReady() || time.Since(d.lastPoll) >= 200*time.Millisecond {
+		if d.K.AnyReady() {
 			d.Poll()
+			d.lastPoll = time.Now()
+		} else if time.Since(d.lastPoll) >= 200*time.Millisecond {
+			d.pollElapsed() // the 200 ms epoll timeout has passed in fair rounds already
 			d.lastPoll = time.Now()
 		}
 		d.pumpBackends()
